@@ -346,7 +346,17 @@ class BiotypeSynonyms(Case):
         yield {}
 
 
-CASES = [CodonTriplets(), CodonConstructor(), CodonHeldReference(), GencodeTables(), ComplementTables(), FrameShift(), FramePhase(),
+class CodonFrames(Case):
+    """Table-driven classes keep no hidden state: frame / kind obligations, and the containers they hand out
+    (synonymous_codons) are the caller's own - never the library's table itself."""
+    props = ("C15",)
+    name = "frame / kind / escape obligations on Codon, CDSFrame, CDSPhase, Strand"
+    func = "gene.codon.Codon.synonymous_codons"
+    static = dict(classes=["gene.codon.Codon", "gene.cds_frame.CDSFrame", "gene.cds_frame.CDSPhase",
+                           "location.strand.Strand"], kinds=("frame", "kind", "escape"), accepted={})
+
+
+CASES = [CodonFrames(), CodonTriplets(), CodonConstructor(), CodonHeldReference(), GencodeTables(), ComplementTables(), FrameShift(), FramePhase(),
          FrameFromInt(), StrandAlgebra(), StrandFromSymbol(), StrandFromInt(), BiotypeSynonyms()]
 
 CANARIES = [
